@@ -220,6 +220,82 @@ class Interp:
             return
         # wild, lit, path: nothing to bind
 
+    _CTOR = {"Some": "some", "None": "none", "Ok": "ok", "Err": "err"}
+
+    def static_match(self, p, val):
+        """True / False when the pattern certainly matches / certainly does not match the (partly) known value, None when
+        that depends on something unknown."""
+        while p["k"] in ("ref", "typed", "paren"):
+            p = p["pat"]
+        k = p["k"]
+        if k == "wild" or (k == "ident" and p.get("sub") is None and not (isinstance(val, dict) and p["name"] == "None")):
+            return True
+        if k == "ident" and p.get("sub") is not None:
+            return self.static_match(p["sub"], val)
+        if k == "or":
+            rs = [self.static_match(c_, val) for c_ in p["cases"]]
+            return True if any(r is True for r in rs) else (False if all(r is False for r in rs) else None)
+        if not isinstance(val, dict):
+            return None
+        v = val.get("v")
+        if k == "ident" and p["name"] == "None":
+            return (v == "none") if v in ("some", "none") else None
+        if k in ("tstruct", "path") and len(p["segs"]) == 1 and p["segs"][0] in self._CTOR:
+            want = self._CTOR[p["segs"][0]]
+            if v in ("some", "none", "ok", "err"):
+                if v != want:
+                    return False
+                if k == "path" or not p.get("elems"):
+                    return True
+                return self.static_match(p["elems"][0], val["x"]) if len(p["elems"]) == 1 else None
+            return None
+        if k == "tuple" and v == "tuple" and len(p["elems"]) == len(val["xs"]):
+            rs = [self.static_match(q, x) for q, x in zip(p["elems"], val["xs"])]
+            return False if any(r is False for r in rs) else (True if all(r is True for r in rs) else None)
+        if k == "lit":
+            have = {"bool": lambda: val["b"], "char": lambda: val["c"], "int": lambda: val["n"]}.get(v)
+            if have is not None and not p.get("neg"):
+                try:
+                    return have() == (p["v"] if v != "int" else int(p["v"]))
+                except (TypeError, ValueError):
+                    return None
+            if v == "str" and all(q[0] == "c" for q in val["parts"]) and p.get("t") == "str":
+                return "".join(q[1] for q in val["parts"]) == p["v"]
+        return None
+
+    def _nested_ctor(self, p):
+        """a constructor pattern with a constructor pattern inside (`Ok(Some(x))`, `Ok(None)`)"""
+        for q in rx.pat_cases(p):
+            while q["k"] in ("ref", "typed", "paren"):
+                q = q["pat"]
+            if q["k"] == "tstruct" and len(q["segs"]) == 1 and q["segs"][0] in self._CTOR and len(q.get("elems", [])) == 1:
+                r = q["elems"][0]
+                while r["k"] in ("ref", "typed", "paren"):
+                    r = r["pat"]
+                if r["k"] in ("tstruct", "path") and len(r["segs"]) == 1 and r["segs"][0] in self._CTOR:
+                    return True
+                if r["k"] == "ident" and r["name"] == "None":
+                    return True
+        return False
+
+    def static_bind(self, p, val, st):
+        while p["k"] in ("ref", "typed", "paren"):
+            p = p["pat"]
+        if p["k"] == "tstruct" and len(p["segs"]) == 1 and p["segs"][0] in self._CTOR and isinstance(val, dict) and val.get("v") == self._CTOR[p["segs"][0]] and len(p["elems"]) == 1 and "x" in val:
+            return self.static_bind(p["elems"][0], val["x"], st)
+        if p["k"] == "tuple" and isinstance(val, dict) and val.get("v") == "tuple" and len(p["elems"]) == len(val["xs"]):
+            for q, x in zip(p["elems"], val["xs"]):
+                self.static_bind(q, x, st)
+            return
+        if p["k"] == "ident" and p.get("sub") is not None:
+            st.env[p["name"]] = val
+            return self.static_bind(p["sub"], val, st)
+        if p["k"] == "or":
+            for c_ in p["cases"]:
+                if self.static_match(c_, val) is True:
+                    return self.static_bind(c_, val, st)
+        return self.bind_pattern(p, val, st)
+
     def pat_canon(self, p):
         return "|".join(str(x) for x in self.pat_label(p))
 
@@ -846,6 +922,23 @@ class Interp:
                     for arm, a in arms_out:
                         out += self.ev(arm["body"], a)
                     continue
+            if isinstance(sv, dict) and sv.get("v") in ("ok", "err", "some", "none") and any(self._nested_ctor(a_["pat"]) for a_ in e["arms"]):
+                # a value whose constructors are known is matched statically, through nested patterns
+                chosen, undecided = None, False
+                for arm in e["arms"]:
+                    r = self.static_match(arm["pat"], sv)
+                    if r is False:
+                        continue
+                    if r is True and arm["guard"] is None:
+                        chosen = arm
+                    else:
+                        undecided = True
+                    break
+                if chosen is not None and not undecided:
+                    a = s1.fork()
+                    self.static_bind(chosen["pat"], sv, a)
+                    out += self.ev(chosen["body"], a)
+                    continue
             if isinstance(sv, dict) and sv.get("v") in ("some", "none"):
                 taken = False
                 for arm in e["arms"]:
@@ -1151,64 +1244,131 @@ class Interp:
                 if compose == "filter_map" and not (isinstance(v0, dict) and v0.get("v") in ("some", "none")):
                     compose = None
                     break
-        results = []
         filtered = []
-        if compose is None:
-            body_start = base.fork()
-            self.bind_pattern(e["pat"], elem, body_start)
-            if idx is not None:
-                body_start.env[idx] = H("index", idx, of=coll)
-            results = self.ev(body_, body_start)
-        else:
-            for c0, v0 in coll["elems"]:
-                if compose == "filter_map" and v0["v"] == "none":
-                    filtered.append(c0)
-                    continue
+
+        def run_body(start_env):
+            results = []
+            del filtered[:]
+            if compose is None:
                 body_start = base.fork()
-                body_start.conds = tuple(c0)
-                self.bind_pattern(e["pat"], v0["x"] if compose == "filter_map" else v0, body_start)
+                body_start.env.update(start_env)
+                self.bind_pattern(e["pat"], elem, body_start)
                 if idx is not None:
                     body_start.env[idx] = H("index", idx, of=coll)
-                results += self.ev(body_, body_start)
-        # which accumulators changed, and by what, on each path of the body
-        deltas = {}  # name -> [(conds, appended value)]
-        problems = []
-        err_paths = []
-        for s2, _ in results:
-            if isinstance(s2.ret, dict) and s2.ret.get("v") == "loopctl":
-                if s2.ret["kind"] == "break":
-                    problems.append("break inside the loop")
-                s2.ret = None
-            if s2.ret is not None:
-                if isinstance(s2.ret, dict) and s2.ret.get("v") == "err":
-                    err_paths.append((s2.conds, s2.ret))
-                    continue
-                if isinstance(s2.ret, dict) and s2.ret.get("v") == "panic":
-                    err_paths.append((s2.conds, s2.ret))
-                    continue
-                problems.append("the loop body returns a value")
-                continue
-            for u in s2.unknown:
-                if u not in st.unknown:
-                    problems.append(u)
-            for (kind, name, val) in [x for x in s2.effects if x[0] in ("push", "assign", "insert")]:
-                problems.append("the loop body changes the manager state (%s %s)" % (kind, name))
-            for name, before in snap_env.items():
-                if name.startswith("__"):
-                    continue
-                after = s2.env.get(name)
-                if after is before or after == before:
-                    deltas.setdefault(name, []).append((s2.conds, None))
-                    continue
-                d = self._delta(before, after)
-                if d is None:
-                    problems.append("`%s` is changed by the loop body in a way that is not an append" % name)
-                else:
-                    deltas.setdefault(name, []).append((s2.conds, d))
-            if s2.buf[: len(snap_buf)] == snap_buf:
-                deltas.setdefault("__buf", []).append((s2.conds, S(s2.buf[len(snap_buf):]) if len(s2.buf) > len(snap_buf) else None))
+                results = self.ev(body_, body_start)
             else:
-                problems.append("the output buffer is rewritten by the loop body")
+                for c0, v0 in coll["elems"]:
+                    if compose == "filter_map" and v0["v"] == "none":
+                        filtered.append(c0)
+                        continue
+                    body_start = base.fork()
+                    body_start.env.update(start_env)
+                    body_start.conds = tuple(c0)
+                    self.bind_pattern(e["pat"], v0["x"] if compose == "filter_map" else v0, body_start)
+                    if idx is not None:
+                        body_start.env[idx] = H("index", idx, of=coll)
+                    results += self.ev(body_, body_start)
+            return results
+
+        def analyse(results, start_env):
+            # which accumulators changed, and by what, on each path of the body
+            deltas = {}  # name -> [(conds, appended value)]
+            problems = []
+            err_paths = []
+            for s2, _ in results:
+                if isinstance(s2.ret, dict) and s2.ret.get("v") == "loopctl":
+                    if s2.ret["kind"] == "break":
+                        problems.append("break inside the loop")
+                    s2.ret = None
+                if s2.ret is not None:
+                    if isinstance(s2.ret, dict) and s2.ret.get("v") == "err":
+                        err_paths.append((s2.conds, s2.ret))
+                        continue
+                    if isinstance(s2.ret, dict) and s2.ret.get("v") == "panic":
+                        err_paths.append((s2.conds, s2.ret))
+                        continue
+                    problems.append("the loop body returns a value")
+                    continue
+                for u in s2.unknown:
+                    if u not in st.unknown:
+                        problems.append(u)
+                for (kind, name, val) in [x for x in s2.effects if x[0] in ("push", "assign", "insert")]:
+                    problems.append("the loop body changes the manager state (%s %s)" % (kind, name))
+                for name, before in snap_env.items():
+                    if name.startswith("__"):
+                        continue
+                    before = start_env.get(name, before)
+                    after = s2.env.get(name)
+                    if after is before or after == before:
+                        deltas.setdefault(name, []).append((s2.conds, None))
+                        continue
+                    d = self._delta(before, after)
+                    if d is None:
+                        problems.append("`%s` is changed by the loop body in a way that is not an append" % name)
+                    else:
+                        deltas.setdefault(name, []).append((s2.conds, d))
+                if s2.buf[: len(snap_buf)] == snap_buf:
+                    deltas.setdefault("__buf", []).append((s2.conds, S(s2.buf[len(snap_buf):]) if len(s2.buf) > len(snap_buf) else None))
+                else:
+                    problems.append("the output buffer is rewritten by the loop body")
+            return deltas, problems, err_paths
+
+        deltas, problems, err_paths = analyse(run_body({}), {})
+        # a string the body appends to is not, when an iteration starts, what it was before the loop: it also holds what the
+        # earlier iterations appended.  The body is evaluated again with that part as an unknown; the one question a body may
+        # ask about it is whether it is still empty (`if !acc.is_empty() { acc.push(' ') }`), which is the separator idiom:
+        # decided below on the paths, wherever the test stands in the body.
+        carried = {name: S(list(snap_env[name]["parts"]) + [("h", H("carried", name, name=name, empty_before=not snap_env[name]["parts"]))]) for name, alts in deltas.items() if name != "__buf" and name not in seps and is_str(snap_env.get(name)) and any(d is not None for _, d in alts)}
+        if carried:
+            deltas, problems, err_paths = analyse(run_body(carried), carried)
+            for name in carried:
+                mark = "carried-empty(%s)" % name
+                alts = deltas.get(name, [])
+                if not any(c0[0] == mark for cnd, _ in alts for c0 in cnd):
+                    continue
+                strip = lambda cnd: tuple(c0 for c0 in cnd if c0[0] != mark)
+                firsts = {strip(cnd): d for cnd, d in alts if (mark, True) in cnd}
+                nexts = {strip(cnd): d for cnd, d in alts if (mark, False) in cnd}
+                loose = [cnd for cnd, d in alts if d is not None and not any(c0[0] == mark for c0 in cnd)]
+                sep_, okp = None, not loose and set(firsts) == set(nexts)
+                for key_ in firsts if okp else []:
+                    f_, n_ = firsts[key_], nexts[key_]
+                    if f_ is None and n_ is None:
+                        continue
+                    if f_ is None or n_ is None:
+                        okp = False
+                        break
+                    fp, np_ = merge_consts(flat_parts(f_["parts"])), merge_consts(flat_parts(n_["parts"]))
+                    s1_ = None
+                    if fp and np_ and fp[0][0] == "c" and np_[0][0] == "c" and np_[0][1].endswith(fp[0][1]) and len(np_[0][1]) > len(fp[0][1]) and np_[1:] == fp[1:]:
+                        s1_ = np_[0][1][: len(np_[0][1]) - len(fp[0][1])]
+                    elif np_ and np_[0][0] == "c" and np_[1:] == fp and (not fp or fp[0][0] != "c"):
+                        s1_ = np_[0][1]
+                    # the emptiness test stands for "nothing appended so far" only if every piece is non-empty
+                    if s1_ is None or (sep_ is not None and s1_ != sep_) or not any(p_[0] == "c" and p_[1] for p_ in fp):
+                        okp = False
+                        break
+                    sep_ = s1_
+                if okp and sep_:
+                    seps[name] = sep_
+                    exact_sep.add(name)
+                    deltas[name] = [(key_, d) for key_, d in firsts.items()] + [(cnd, None) for cnd, d in alts if not any(c0[0] == mark for c0 in cnd)]
+                    for nm2, alts2 in list(deltas.items()):
+                        if nm2 != name:
+                            # the other accumulators do not depend on the test: one entry per path without it
+                            seen_, kept_ = set(), []
+                            for cnd, d in alts2:
+                                k2_ = (strip(cnd), canon(d) if isinstance(d, dict) and d.get("v") else repr(d))
+                                if k2_ not in seen_:
+                                    seen_.add(k2_)
+                                    kept_.append((strip(cnd), d))
+                            deltas[nm2] = kept_
+                    err_paths = [(strip(cnd), rv) for cnd, rv in err_paths]
+                else:
+                    import os as _os
+                    if _os.environ.get("VERIF_DEBUG"):
+                        print("DEBUG carried", name, "loose", loose, "\nfirsts", [(k_, canon(v_) if v_ else None) for k_, v_ in firsts.items()], "\nnexts", [(k_, canon(v_) if v_ else None) for k_, v_ in nexts.items()])
+                    problems.append("`%s` is tested for emptiness inside the loop in a way that is not the separator idiom" % name)
         out_state = st
         for pr in problems:
             if pr not in out_state.unknown:
@@ -1699,6 +1859,13 @@ class Interp:
             septext = "".join(p[1] for p in argv[0]["parts"] if p[0] == "c")
             return [(st, S([("join", rv, septext)]))]
         if m == "is_empty" and not argv:
+            if k == "str" and any(p[0] == "h" and isinstance(p[1], dict) and p[1].get("kind") == "carried" for p in rv["parts"]):
+                ci = [i_ for i_, p in enumerate(rv["parts"]) if p[0] == "h" and isinstance(p[1], dict) and p[1].get("kind") == "carried"][0]
+                ch = rv["parts"][ci][1]
+                if any(p[0] == "c" and p[1] for p in rv["parts"]):
+                    return [(st, {"v": "bool", "b": False, "src": src(e)})]
+                if ch.get("empty_before") and ci == len(rv["parts"]) - 1 and ci == 0:
+                    return [(st, H("carried-empty", src(e), name=ch["name"]))]
             if k == "str":
                 consts = "".join(p[1] for p in rv["parts"] if p[0] == "c")
                 if consts:
@@ -2083,6 +2250,18 @@ class Interp:
 
 
 # ------------------------------------------------------------------ rendering helpers
+def merge_consts(parts):
+    out = []
+    for p in parts:
+        if p[0] == "c" and out and out[-1][0] == "c":
+            out[-1] = ("c", out[-1][1] + p[1])
+        elif p[0] == "c" and not p[1]:
+            continue
+        else:
+            out.append(p)
+    return out
+
+
 def flat_parts(parts):
     """Merge adjacent constants."""
     out = []
@@ -2410,6 +2589,10 @@ def canon(h):
         return "{:?}(%s)" % canon(h.get("of"))
     if k == "path":
         return h.get("src")
+    if k == "carried-empty":
+        return "carried-empty(%s)" % h.get("name")
+    if k == "carried":
+        return "carried(%s)" % h.get("name")
     if k == "elem-of-mapped":
         return "%s(%s)" % (h.get("which"), canon(h.get("mapped")))
     if k == "some-of":
